@@ -321,7 +321,7 @@ def fast_range2parts_v1(r1, c1, sheet_id, anchor=''):
 
 
 def fast_range2parts_v2(r1, c1, r2, c2, sheet_id):
-    ref = _build_ref(c1, r1, c2, r2).upper()
+    ref = _build_ref(c1.upper(), r1, c2.upper(), r2).upper()
     return {
         'r1': r1, 'r2': r2, 'c1': c1, 'c2': c2, 'n1': _col2index(c1),
         'n2': _col2index(c2), 'ref': ref, 'name': _build_id(ref, sheet_id)
